@@ -124,7 +124,8 @@ def isValueTok (t : Tok) : Bool :=
 
 def allDigits (s : Str) : Bool := s.all isDigit
 
-def isShortDateSpec (s : Str) : Bool := s.length == 6 && allDigits s
+/-- `is_short_date_spec`: six digits that form a real date -/
+def isShortDateSpec (s : Str) : Bool := s.length == 6 && allDigits s && (Date.parseShort s).isSome
 
 def isLongDateSpec (s : Str) : Bool :=
   match s with
